@@ -74,6 +74,51 @@ pub fn worker(case: &Value) -> Value {
         return json!({"n": 1, "bad": [], "observed": {"stdout": o.stdout_str(), "end": format!("{:?}", o.end)}});
     }
     let kind = case["k"].as_str().unwrap_or("");
+    if kind == "callgosub" {
+        // GOSUB / RETURN and subprogram calls: a RETURN only answers a GOSUB of the same activation
+        // (text, expected stdout, expected end: None = normal, Some((code, row)) = that error at that row)
+        let cases: Vec<(&str, &str, &str, Option<(i32, u32)>)> = vec![
+            ("RETURN in a SUB called from a GOSUB routine",
+             "DIM A%(2)\nGOSUB Rtn\nPRINT \"main\"\nEND\nRtn:\nPRINT \"rtn\"\nS\nPRINT \"rtn2\"\nA%(1) = 5\nRETURN\nSUB S\nPRINT \"s\"\nRETURN\nPRINT \"not here\"\nEND SUB\n",
+             "rtn\r\ns\r\n", Some((3, 13))),
+            ("GOSUB inside a SUB left by EXIT SUB, then RETURN at module level",
+             "DIM A%(2)\nS\nPRINT \"main\"\nA%(1) = 5\nRETURN\nPRINT \"not here\"\nEND\nSUB S\nPRINT \"s\"\nGOSUB Inner\nPRINT \"not here either\"\nEXIT SUB\nInner:\nPRINT \"inner\"\nEXIT SUB\nEND SUB\n",
+             "s\r\ninner\r\nmain\r\n", Some((3, 5))),
+            ("a SUB with its own GOSUB / RETURN pair called from a GOSUB routine",
+             "GOSUB Rtn\nPRINT \"main\"\nEND\nRtn:\nPRINT \"rtn\"\nS\nPRINT \"rtn2\"\nRETURN\nSUB S\nPRINT \"s\"\nGOSUB Inner\nPRINT \"s2\"\nEXIT SUB\nInner:\nPRINT \"inner\"\nRETURN\nEND SUB\n",
+             "rtn\r\ns\r\ninner\r\ns2\r\nrtn2\r\nmain\r\n", None),
+            ("a FUNCTION that leaves a GOSUB behind, called twice, then RETURN at module level",
+             "PRINT F%(1); F%(2)\nRETURN\nEND\nFUNCTION F% (N%)\nGOSUB G\nF% = -1\nEXIT FUNCTION\nG:\nF% = N% * 10\nEND FUNCTION\n",
+             " 10  20 \r\n", Some((3, 2))),
+            ("recursive SUB: every activation has its own GOSUB / RETURN pair",
+             "R 2\nPRINT \"main\"\nEND\nSUB R (N%)\nGOSUB Show\nIF N% > 0 THEN R N% - 1\nGOSUB Show\nEXIT SUB\nShow:\nPRINT \"n\"; N%\nRETURN\nEND SUB\n",
+             "n 2 \r\nn 1 \r\nn 0 \r\nn 0 \r\nn 1 \r\nn 2 \r\nmain\r\n", None),
+        ];
+        let mut bads = vec![];
+        let mut hist: std::collections::BTreeMap<String, u64> = Default::default();
+        let mut n = 0u64;
+        for (name, text, want_out, want_end) in cases {
+            let o = run_pipeline(text, &RunOpts { budget: 200_000, ..RunOpts::default() });
+            n += 1;
+            let end_ok = match (&o.end, want_end) {
+                (vcore::outcome::End::Normal, None) => true,
+                (vcore::outcome::End::RuntimeError { code: Some(c), rows, .. }, Some((wc, wr))) => *c == wc && rows.first() == Some(&wr),
+                _ => false,
+            };
+            if end_ok && o.stdout_str() == want_out {
+                *hist.entry(format!("agree:{}", o.end.class())).or_insert(0) += 1;
+            } else {
+                *hist.entry("differ".into()).or_insert(0) += 1;
+                bads.push(json!({
+                    "sig": format!("C05|callgosub|{}", name),
+                    "summary": format!("{}: expected output {:?} and end {:?}, got {:?} and {:?} — program: {:?}", name, want_out, want_end, o.stdout_str(), o.end, super::truncate_text(text, 500)),
+                    "text": text,
+                    "case": {"axis": "text", "text": text},
+                }));
+            }
+        }
+        return json!({"n": n, "nontrivial": n, "hist": hist, "bad": bads});
+    }
     if kind == "header" {
         // a failing block header (condition, SELECT subject, CASE test, FOR bound) under ON ERROR GOTO + RESUME:
         // the handler repairs the operand and RESUME evaluates the header again, so apart from the handler's own
@@ -225,6 +270,8 @@ pub fn drive(tier: &str) -> i32 {
         plan.push(json!({"kind": kind, "programs": t}));
         states += t as u64;
     }
+    cases.push(json!({"k": "callgosub"}));
+    plan.push(json!({"kind": "callgosub", "programs": 5}));
     cases.push(json!({"k": "header"}));
     plan.push(json!({"kind": "header", "programs": 28}));
     cases.push(json!({"k": "scope"}));
@@ -238,7 +285,7 @@ pub fn drive(tier: &str) -> i32 {
         run.capped = true;
     }
     let mut ev = Evidence::new("model_checking");
-    ev.set("rule", "jump layouts: up to 3 labelled blocks in every order (quick: two orders for 3 blocks), each ending in fall-through / END / RETURN / GOTO x / GOSUB x / RETURN x for every x, entered by fall-through or by GOTO, at module level and inside a SUB, every block counting its executions (the program stops after 7). loop escapes: every nest of 1..3 loops over {FOR, FOR STEP -1, WHILE, DO..LOOP UNTIL} with pairwise distinct bounds, a GOTO from the innermost body to a label in the body of every shallower level and after the nest, a GOSUB to a routine after the nest; the same with IF / ELSE / CASE / CASE ELSE blocks between the loops. jumps into a block: GOTO to a label in the middle of an IF / ELSEIF / ELSE / CASE / CASE ELSE block, a WHILE / DO body or an IF inside a WHILE, at module level and inside a SUB, once and three times in a row. failing block headers: an IF / ELSEIF / second ELSEIF / single-line IF / WHILE / DO WHILE / DO UNTIL / LOOP WHILE / LOOP UNTIL condition, a SELECT CASE subject, a first / second CASE test, a FOR start / limit that divides by zero under ON ERROR GOTO + RESUME (the handler repairs the divisor), at module level and in a SUB: apart from the handler's line the output is that of the repaired program. jumps across scopes: GOTO / GOSUB / RETURN label from a SUB to a module-level label, from the module level into a SUB and from one SUB into another must be rejected with Label not defined at the row of the jump. one fault: 10 failing statement kinds (incl. a built-in that fails after a user FUNCTION has returned within the same statement, also a FUNCTION that itself executes ON ERROR RESUME NEXT) x 17 containers (main, IF / ELSE / ELSEIF blocks, single-line IF, first / middle / ELSE CASE blocks, FOR / FOR STEP / WHILE / DO bodies, an IF block that ends a FOR body, SUB and FUNCTION bodies, the end of the module with subprograms following) x 3 positions x 9 handler modes (none, RESUME with the operand repaired, RESUME NEXT, RESUME label, ON ERROR RESUME NEXT, ON ERROR GOTO 0, a handler that fails itself, and in loop bodies two handlers that resume the first and the second failure of the same statement differently) x handler action. handler histories: the full tree of sequences up to the depth over {ON ERROR GOTO H1, ON ERROR GOTO H2, ON ERROR GOTO 0, ON ERROR RESUME NEXT, failing statement, trace}. Every program is one path of the reference machine (explicit GOSUB stack, handler mode, pending error) replayed on the implementation; trace output, ERR values and the end state with its row are compared.");
+    ev.set("rule", "jump layouts: up to 3 labelled blocks in every order (quick: two orders for 3 blocks), each ending in fall-through / END / RETURN / GOTO x / GOSUB x / RETURN x for every x, entered by fall-through or by GOTO, at module level and inside a SUB, every block counting its executions (the program stops after 7). loop escapes: every nest of 1..3 loops over {FOR, FOR STEP -1, WHILE, DO..LOOP UNTIL} with pairwise distinct bounds, a GOTO from the innermost body to a label in the body of every shallower level and after the nest, a GOSUB to a routine after the nest; the same with IF / ELSE / CASE / CASE ELSE blocks between the loops. jumps into a block: GOTO to a label in the middle of an IF / ELSEIF / ELSE / CASE / CASE ELSE block, a WHILE / DO body or an IF inside a WHILE, at module level and inside a SUB, once and three times in a row. GOSUB and calls: a RETURN inside a SUB that was called from a GOSUB routine, a GOSUB left behind by EXIT SUB / EXIT FUNCTION followed by a RETURN at module level (both Return without GOSUB, error 3, at the RETURN), and subprograms (also recursive ones) with their own GOSUB / RETURN pairs called from a GOSUB routine. failing block headers: an IF / ELSEIF / second ELSEIF / single-line IF / WHILE / DO WHILE / DO UNTIL / LOOP WHILE / LOOP UNTIL condition, a SELECT CASE subject, a first / second CASE test, a FOR start / limit that divides by zero under ON ERROR GOTO + RESUME (the handler repairs the divisor), at module level and in a SUB: apart from the handler's line the output is that of the repaired program. jumps across scopes: GOTO / GOSUB / RETURN label from a SUB to a module-level label, from the module level into a SUB and from one SUB into another must be rejected with Label not defined at the row of the jump. one fault: 10 failing statement kinds (incl. a built-in that fails after a user FUNCTION has returned within the same statement, also a FUNCTION that itself executes ON ERROR RESUME NEXT) x 17 containers (main, IF / ELSE / ELSEIF blocks, single-line IF, first / middle / ELSE CASE blocks, FOR / FOR STEP / WHILE / DO bodies, an IF block that ends a FOR body, SUB and FUNCTION bodies, the end of the module with subprograms following) x 3 positions x 9 handler modes (none, RESUME with the operand repaired, RESUME NEXT, RESUME label, ON ERROR RESUME NEXT, ON ERROR GOTO 0, a handler that fails itself, and in loop bodies two handlers that resume the first and the second failure of the same statement differently) x handler action. handler histories: the full tree of sequences up to the depth over {ON ERROR GOTO H1, ON ERROR GOTO H2, ON ERROR GOTO 0, ON ERROR RESUME NEXT, failing statement, trace}. Every program is one path of the reference machine (explicit GOSUB stack, handler mode, pending error) replayed on the implementation; trace output, ERR values and the end state with its row are compared.");
     ev.set("exhaustive", !run.capped);
     ev.set("plan", json!(plan));
     ev.set("states", states);
